@@ -517,6 +517,9 @@ class Interp:
         self.feas_timeout_ms = 400
         self.quiet = 0
         self.mbqi = False
+        self.xcheck = None  # thorough tier: callable(smt2 text) -> {backend: answer}
+        self.xchecked = set()
+        self.xresults = []
         self.fail_fast = False
         self.retry_factor = 2
         self.stopped = False
@@ -745,6 +748,15 @@ class Interp:
                 ob.model = self.world.describe_model(self, m) if m is not None else ""
             else:
                 ob.status = "unknown"
+        if ob.status == "proved" and ob.note != "trivial" and self.xcheck is not None and ob.name not in self.xchecked:
+            self.xchecked.add(ob.name)
+            self.solver.push()
+            self.solver.add(z3.Not(goal))
+            try:
+                smt2 = self.solver.to_smt2()
+            finally:
+                self.solver.pop()
+            self.xresults.append((ob.name, self.xcheck(smt2)))
         self.obligations.append(ob)
         if ob.status != "proved" and self.fail_fast:
             raise StopExploration()
